@@ -149,6 +149,23 @@ func init() {
 				}
 			}
 		}
+		// a wide node (more children than typical fan-out thresholds) with one hostile child at an early, a middle
+		// and the last position; one worker per stage
+		for _, pos := range []int{5, 20, 33} {
+			doc := "- r\n"
+			for i := 0; i < 34; i++ {
+				if i == pos {
+					doc += "  - ../../../esc\n"
+				} else {
+					doc += fmt.Sprintf("  - c%02d\n", i)
+				}
+			}
+			doc += "- second\n  - k\n"
+			dw := NewDrv("mkdir", doc)
+			name := fmt.Sprintf("c07/wide34/pos%d/mkdir", pos)
+			out = append(out, &Scenario{Name: name, Prop: "C07", Workers: map[string]int{"*": 1}, Bound: k, Policies: []int{0, 1, 2},
+				New: func() Exec { return &c07Exec{DrvRun: dw.New(), invalid: true} }})
+		}
 		// a valid forest: nothing outside the target, no error
 		d := NewDrv("mkdir", "- a\n  - b\n- c\n  - d\n")
 		out = append(out, &Scenario{Name: "c07/valid/mkdir", Prop: "C07", Workers: w2, Bound: k, Policies: []int{0, 1, 2},
